@@ -71,6 +71,13 @@ def curated(ext_modes=("sinks", "all", "interior")) -> list[JobSpec]:
         "t2": {"outs": ["0"], "ps": {1: "s2"}, "kw": {}},
     }
     out.append(JobSpec("multi/eleven", te, [("t0", "10", "t1", 0), ("t0", "2", "t2", 0)], [("t1", "0"), ("t2", "0"), ("t0", "9")]))
+    # two datasets whose task and output names concatenate to the same text ("a"+"10" and "a1"+"0")
+    tc = {
+        "a": {"outs": ["10"], "ps": {0: "sa"}, "kw": {}},
+        "a1": {"outs": ["0"], "ps": {0: "sa1"}, "kw": {}},
+        "z": {"outs": ["0"], "ps": {2: "sz"}, "kw": {}},
+    }
+    out.append(JobSpec("concat-names", tc, [("a", "10", "z", 0), ("a1", "0", "z", 1)], [("z", "0"), ("a", "10"), ("a1", "0")]))
     # tasks whose value is None (a function without a return statement): as a requested sink, and as a requested
     # dataset that also feeds a consumer
     for nm, nones, ext in (("none-sink", [1], [(1, "0")]), ("none-mid", [0], [(0, "0"), (1, "0")])):
